@@ -116,17 +116,22 @@ const None = "None"
 // term (input together with what the implementation did) and a JSON rendering
 // used for replay files and evidence samples.
 type Stream struct {
-	Name     string   // e.g. "colour"
-	Imports  string   // e.g. "model.Colour"
-	Type     string   // Coq type of one case
-	Mism     string   // Coq function: list case -> list Z
-	Viol     string   // Coq function: list case -> list Z
-	Terms    []string // Coq terms
-	JSON     []interface{}
-	keys     map[string]bool
-	Nontriv  int
-	Dist     map[string]int
-	ShardMax int
+	Name    string // e.g. "colour"
+	Imports string // e.g. "model.Colour"
+	Type    string // Coq type of one case
+	Mism    string // Coq function: list case -> list Z
+	Viol    string // Coq function: list case -> list Z
+	// Known (optional): Coq function list case -> list Z giving the indices of the
+	// cases that fall under the explicit guard of a recorded finding; a violating
+	// case in that list is reported under KnownClass instead of as a new violation.
+	Known      string
+	KnownClass string
+	Terms      []string // Coq terms
+	JSON       []interface{}
+	keys       map[string]bool
+	Nontriv    int
+	Dist       map[string]int
+	ShardMax   int
 }
 
 func NewStream(name, imports, typ, mism, viol string) *Stream {
@@ -158,14 +163,15 @@ type shardInfo struct {
 }
 
 type streamInfo struct {
-	Name     string         `json:"name"`
-	N        int            `json:"n"`
-	Distinct int            `json:"distinct"`
-	Nontriv  int            `json:"distinct_nontrivial"`
-	Dist     map[string]int `json:"distribution"`
-	Shards   []shardInfo    `json:"shards"`
-	CaseFile string         `json:"cases_jsonl"`
-	Samples  []interface{}  `json:"samples"`
+	Name       string         `json:"name"`
+	N          int            `json:"n"`
+	Distinct   int            `json:"distinct"`
+	Nontriv    int            `json:"distinct_nontrivial"`
+	Dist       map[string]int `json:"distribution"`
+	Shards     []shardInfo    `json:"shards"`
+	CaseFile   string         `json:"cases_jsonl"`
+	KnownClass string         `json:"known_class"`
+	Samples    []interface{}  `json:"samples"`
 }
 
 // Stats is written as stats.json next to the case files.
@@ -193,7 +199,7 @@ func (c *Config) Write(prop, rule string, streams []*Stream, extra map[string]in
 		st.Direct = []DirectViolation{}
 	}
 	for _, s := range streams {
-		si := streamInfo{Name: s.Name, N: len(s.Terms), Distinct: len(s.keys), Nontriv: s.Nontriv, Dist: s.Dist}
+		si := streamInfo{Name: s.Name, N: len(s.Terms), Distinct: len(s.keys), Nontriv: s.Nontriv, Dist: s.Dist, KnownClass: s.KnownClass}
 		// JSON lines for replay
 		jl := filepath.Join(c.Out, fmt.Sprintf("%s_%s.cases.jsonl", prop, s.Name))
 		f, err := os.Create(jl)
@@ -229,8 +235,15 @@ func (c *Config) Write(prop, rule string, streams []*Stream, extra map[string]in
 			}
 			b.WriteString("].\n")
 			fmt.Fprintf(&b, "Definition mism := Eval vm_compute in (let l := %s cases in (zlen l, firstn 8 l)).\n", s.Mism)
-			fmt.Fprintf(&b, "Definition viol := Eval vm_compute in (let l := %s cases in (zlen l, firstn 8 l)).\n", s.Viol)
-			b.WriteString("Print mism.\nPrint viol.\n")
+			if s.Known == "" {
+				fmt.Fprintf(&b, "Definition viol := Eval vm_compute in (let l := %s cases in (zlen l, firstn 8 l)).\n", s.Viol)
+				b.WriteString("Definition known := (0, @nil Z).\n")
+			} else {
+				fmt.Fprintf(&b, "Definition vk := Eval vm_compute in (let v := %s cases in let k := %s cases in (filter (fun i => negb (existsb (Z.eqb i) k)) v, filter (fun i => existsb (Z.eqb i) k) v)).\n", s.Viol, s.Known)
+				b.WriteString("Definition viol := Eval vm_compute in (zlen (fst vk), firstn 8 (fst vk)).\n")
+				b.WriteString("Definition known := Eval vm_compute in (zlen (snd vk), firstn 8 (snd vk)).\n")
+			}
+			b.WriteString("Print mism.\nPrint viol.\nPrint known.\n")
 			if err := os.WriteFile(path, []byte(b.String()), 0o644); err != nil {
 				panic(err)
 			}
